@@ -35,6 +35,29 @@ INDEX_FUNCS = {"get_indices_vals_in_window", "get_indices_vals_to_adjust", "get_
 INDEX_LIB = {"np.where", "np.argsort", "np.isin", "np.in1d", "np.logical_and", "np.logical_or", "np.logical_not", "np.nonzero", "np.flatnonzero",
              "np.isnan", "np.isinf", "np.isfinite", "np.argmax", "np.argmin", "np.searchsorted", "np.digitize", "np.arange", "np.zeros_like", "np.ones_like"}
 
+# Everything else is classified fail-closed: a library function or method that is in none of the tables is
+# treated as writing into its receiver / array arguments and returning an alias of them.
+PURE_LIBS = {"map_variable_str_to_variable_class", "map_standard_precipitation_method", "all", "any", "enumerate", "hasattr", "isinstance", "len", "list", "range", "round", "super", "type", "tuple", "dict", "zip", "iter", "reversed",
+             "sorted", "partial", "tqdm", "map", "filter", "min", "max", "sum", "abs", "float", "int", "str", "bool", "repr", "print", "getattr", "issubclass", "callable", "id", "set", "frozenset",
+             "ValueError", "TypeError", "NotImplementedError", "RuntimeError", "Exception", "Pool", "detrend", "child_class", "func", "step_function", "cls", "warning",
+             "attrs.define", "attrs.field", "attrs.validators.gt", "attrs.validators.in_", "attrs.validators.instance_of", "attrs.validators.optional", "attrs.validators.ge", "attrs.validators.le", "attrs.validators.lt",
+             "logger.error", "logger.info", "logger.warning", "logger.debug", "warnings.warn", "warnings.catch_warnings", "warnings.simplefilter", "measurements.label", "measurements.sum",
+             "np.abs", "np.all", "np.any", "np.arange", "np.argsort", "np.array", "np.array_equal", "np.bincount", "np.concatenate", "np.cos", "np.sin", "np.datetime64", "np.diff", "np.einsum",
+             "np.empty", "np.empty_like", "np.floor", "np.ceil", "np.histogram", "np.interp", "np.isclose", "np.isin", "np.isinf", "np.isnan", "np.isfinite", "np.issubdtype", "np.linspace", "np.log", "np.exp", "np.sqrt",
+             "np.logical_and", "np.logical_not", "np.logical_or", "np.max", "np.maximum", "np.mean", "np.min", "np.minimum", "np.mod", "np.ndindex", "np.prod", "np.quantile",
+             "np.random.random", "np.random.uniform", "np.round", "np.sign", "np.sort", "np.sum", "np.timedelta64", "np.unique", "np.vectorize", "np.where", "np.zeros", "np.zeros_like", "np.ones", "np.ones_like",
+             "np.full", "np.full_like", "np.std", "np.var", "np.median", "np.cumsum", "np.nanmean", "np.nanmax", "np.nanmin", "np.argmax", "np.argmin", "np.searchsorted", "np.nonzero", "np.flatnonzero", "np.digitize",
+             "np.stack", "np.vstack", "np.hstack", "np.column_stack", "np.repeat", "np.tile", "np.clip", "np.power", "np.square", "np.allclose", "np.count_nonzero", "np.copy", "np.float64", "np.int64",
+             "pd.DataFrame", "pd.concat", "pd.to_numeric", "scipy.interpolate.interp1d", "scipy.ndimage.maximum_filter1d", "scipy.ndimage.uniform_filter1d",
+             "scipy.optimize.minimize", "scipy.special.expit", "scipy.special.logit", "scipy.stats.kstest", "scipy.stats.linregress", "scipy.stats.rankdata", "scipy.stats.rv_histogram"}
+PURE_METHODS = {"ECDF", "argsort", "astype", "copy", "filled", "flatten", "get", "getEffectiveLevel", "getLogger", "items", "iterrows", "keys", "logpdf", "lower", "upper", "max", "mean",
+                "merge", "min", "reduceat", "split", "starmap", "sum", "timetuple", "setLevel", "any", "all", "std", "var", "round", "tolist", "item", "format", "join", "startswith", "endswith",
+                "strip", "index", "count", "cumsum", "nonzero", "argmax", "argmin", "clip", "dot", "prod", "isoformat", "close", "terminate", "imap", "cdf", "ppf", "pdf", "fit", "rvs", "sf", "isf"}
+# sources of randomness / ambient state other than numpy's global generator
+NONDET = ("np.random.default_rng", "np.random.RandomState", "np.random.Generator", "np.random.SeedSequence", "np.random.PCG64", "np.random.seed", "random.", "time.", "datetime.now",
+          "datetime.datetime.now", "os.urandom", "os.environ", "os.getenv", "secrets.", "uuid.")
+REFLECTIVE = ("setattr", "delattr", "vars", "globals", "locals", "exec", "eval")
+
 class Fun:
     def __init__(self, key, node, cls):
         self.key, self.node, self.cls = key, node, cls
@@ -51,6 +74,19 @@ class Fun:
         self.cur = {}         # source name -> current version name (SSA renaming of top-level straight-line rebinding)
         self.nver = {}
         self.depth = 0
+        # names bound somewhere in the function (anything else that is written is module-level state)
+        self.locals = set(self.all_params)
+        declared_global = set()
+        for n in ast.walk(node):
+            if isinstance(n, ast.Global): declared_global |= set(n.names)
+            elif isinstance(n, ast.Name) and isinstance(n.ctx, (ast.Store, ast.Del)): self.locals.add(n.id)
+            elif isinstance(n, ast.arg): self.locals.add(n.arg)
+            elif isinstance(n, (ast.FunctionDef, ast.ClassDef)) and n is not node: self.locals.add(n.name)
+            elif isinstance(n, ast.ExceptHandler) and n.name: self.locals.add(n.name)
+            elif isinstance(n, (ast.Import, ast.ImportFrom)):
+                for a in n.names: self.locals.add((a.asname or a.name).split(".")[0])
+        self.locals -= declared_global
+        self.declared_global = declared_global
 
 def unparse(n):
     try:
@@ -115,7 +151,7 @@ class Extractor:
         fn = call.func
         if isinstance(fn, ast.Attribute):
             base = unparse(fn.value)
-            if base in ("np", "numpy", "np.random", "np.ma", "scipy.stats", "scipy.special", "scipy.interpolate", "scipy.ndimage", "scipy.optimize", "math", "warnings", "measurements", "pd"):
+            if base in ("np", "numpy", "np.random", "np.ma", "scipy.stats", "scipy.special", "scipy.interpolate", "scipy.ndimage", "scipy.optimize", "math", "warnings", "measurements", "pd", "logger"):
                 return base + "." + fn.attr
         if isinstance(fn, ast.Name):
             return fn.id
@@ -184,6 +220,8 @@ class Extractor:
             f.bind_kinds.setdefault(tgt, set()).add("index" if self.expr_kind_index(f, e.value) else "other")
             return [("may", [tgt])]
         if isinstance(e, ast.Attribute):
+            if e.attr in ("__dict__", "__setattr__", "__class__", "__globals__"):
+                f.stmts.append(("self", "<reflective>." + e.attr))
             if isinstance(e.value, ast.Name) and e.value.id in ("self", "cls"):
                 return [("fresh",)]
             if e.attr in VIEW_METHODS:
@@ -297,6 +335,12 @@ class Extractor:
             return out
         # library call
         ln = self.libname(call) or ""
+        self.nondet = getattr(self, "nondet", [])
+        full = unparse(fn)
+        if any(full == n or (n.endswith(".") and full.startswith(n)) for n in NONDET):
+            self.nondet.append((f.key, full))
+        if isinstance(fn, ast.Name) and fn.id in REFLECTIVE:
+            f.stmts.append(("self", "<reflective>." + fn.id))
         argvars = []
         for a in call.args:
             argvars.append(self.atom(f, a.value if isinstance(a, ast.Starred) else a))
@@ -312,19 +356,51 @@ class Extractor:
                                                      "scipy.optimize", "math", "warnings", "measurements", "pd", "logger", "plt", "seaborn", "attrs", "attrs.validators")
             if not recv_is_module:
                 recv = self.atom(f, fn.value)
-                if fn.attr in INPLACE_METHODS:
+                known = fn.attr in PURE_METHODS or fn.attr in VIEW_METHODS
+                if fn.attr in INPLACE_METHODS or not known:
+                    pr = self.persistent_root(f, fn.value)
+                    if pr is not None:
+                        f.stmts.append(("self", pr))         # e.g. self.__dict__.setdefault(...), _CACHE.update(...)
                     f.stmts.append(("store", recv))
+                    if not known and fn.attr not in INPLACE_METHODS:
+                        self.unclassified = getattr(self, "unclassified", []) + [(f.key, "." + fn.attr)]
+                        for v in argvars: f.stmts.append(("store", v))
+                        return [("may", [recv] + argvars)]
                 if fn.attr in VIEW_METHODS:
                     return [("may", [recv])]
+                return [("fresh",)]
         if ln in VIEW_FUNCS:
             return [("may", argvars)] if argvars else [("fresh",)]
         if ln in ("list", "tuple", "dict", "zip", "enumerate", "iter", "reversed", "sorted", "partial", "tqdm", "map", "filter"):
             return [("may", argvars)] if argvars else [("fresh",)]
-        return [("fresh",)]
+        if ln in PURE_LIBS or ln in INPLACE_FUNCS or ln in INDEX_LIB:
+            return [("fresh",)]
+        # a class of this project used as a constructor, or a local callable: arguments may be retained, not written
+        if isinstance(fn, ast.Name) and (fn.id in f.locals or fn.id[:1].isupper() or fn.id.startswith("gen_")):
+            return [("may", argvars)] if argvars else [("fresh",)]
+        if isinstance(fn, ast.Call) and isinstance(fn.func, ast.Name) and fn.func.id == "type":
+            return [("fresh",)]          # type(x)(...): a constructor call
+        self.unclassified = getattr(self, "unclassified", []) + [(f.key, ln or full)]
+        for v in argvars: f.stmts.append(("store", v))
+        return [("may", argvars)] if argvars else [("fresh",)]
 
     # ---------------------------------------------------------------- statements
+    def persistent_root(self, f, e):
+        """name of the persistent (non-argument, non-local) state an expression is rooted in, or None:
+        an attribute of self / cls, or a module-level name"""
+        while isinstance(e, (ast.Subscript, ast.Attribute, ast.Call)):
+            if isinstance(e, ast.Attribute) and isinstance(e.value, ast.Name) and e.value.id in ("self", "cls"):
+                return e.attr
+            e = e.func if isinstance(e, ast.Call) else e.value
+        if isinstance(e, ast.Name) and e.id not in ("self", "cls") and e.id not in f.locals:
+            return "<module>." + e.id
+        return None
+
     def root_of_target(self, f, t):
         """the variable written by a subscript / attribute store target"""
+        pr = self.persistent_root(f, t)
+        if pr is not None:
+            return None, pr
         while isinstance(t, (ast.Subscript,)):
             t = t.value
         if isinstance(t, ast.Attribute):
@@ -336,7 +412,10 @@ class Extractor:
         return self.atom(f, t), None
 
     def assign_target(self, f, t, value):
-        if isinstance(t, ast.Name):
+        if isinstance(t, ast.Name) and t.id in f.declared_global:
+            self.atom(f, value)
+            f.stmts.append(("self", "<module>." + t.id))
+        elif isinstance(t, ast.Name):
             rs = self.rhs(f, value)                      # evaluated with the old version of the name
             kind = "index" if self.expr_kind_index(f, value) else "other"
             tgt = self.wr(f, t.id)
@@ -528,7 +607,13 @@ def generate_effects(repo):
     lines.append("Definition entry_points : list string := %s.\n" % cl(cs(e) for e in entries))
     lines.append("Definition isimip_steps : list string := %s.\n" % cl(cs(e) for e in steps))
     lines.append("Definition metric_methods : list string := %s.\n" % cl(cs(k) for k in sorted(ex.funs) if k.startswith("ThresholdMetric.calculate") or k.startswith("AccumulativeThresholdMetric.calculate") or k == "ThresholdMetric.filter_threshold_exceedances"))
-    info = dict(functions=len(ex.funs), statements=sum(len(f.stmts) for f in ex.funs.values()),
+    nondet = sorted(set(getattr(ex, "nondet", [])))
+    uncl = sorted(set(getattr(ex, "unclassified", [])))
+    lines.append("(* randomness / ambient-state sources other than numpy's global generator, (function, call) *)")
+    lines.append("Definition other_random_sources : list (string * string) := %s.\n" % cl("(%s, %s)" % (cs(a), cs(b)) for a, b in nondet))
+    lines.append("(* calls classified fail-closed (unknown library function or method: treated as writing its arguments) *)")
+    lines.append("Definition unclassified_calls : list (string * string) := %s.\n" % cl("(%s, %s)" % (cs(a), cs(b)) for a, b in uncl))
+    info = dict(functions=len(ex.funs), other_random_sources=nondet, unclassified_calls=uncl, statements=sum(len(f.stmts) for f in ex.funs.values()),
                 entries={e: dict(mut=sorted(mut[e]), selfw=sorted(selfw[e])) for e in entries},
                 mutating={k: sorted(mut[k]) for k in ex.funs if mut[k]})
     return "\n".join(lines), ex.hashes, info
